@@ -297,4 +297,17 @@ def Da():
     return p
 
 
+def _pol(base, pol):
+    p = base()
+    for m in p.machines: m.policy = pol
+    p.name = '%s_%s' % (p.name, pol)
+    p.root.name = p.root.name   # type names stay the same
+    return p
+
+
 CATALOG = {f.__name__: f for f in (Q, Q1, Q2, D, Da, F1, R2, R3, H2, H3, X, HIn, HIa, HIs, A, Ai, T, FL)}
+
+POLICIES = ['after_entry', 'after_transition_action', 'after_exit', 'before_transition']
+for _b in (F1, R2, H2):
+    for _p in POLICIES:
+        CATALOG['%s_%s' % (_b.__name__, _p)] = (lambda b=_b, p=_p: _pol(b, p))
